@@ -85,12 +85,83 @@ class C12(ParserSessionProp):
         if not vs and (spec.get('reader_interleave') or {}).get('readers'):
             vs, log2 = self.interleave_stage(parsed, lang, spec['reader_interleave'], result['stats'])
             log = log + log2
+        if not vs and spec.get('many_parents'):
+            vs, log3 = self.many_parents_stage(lang, spec['many_parents'], result['stats'])
+            log = log + log3
         for v in vs:
             v['property'] = self.id
             v['op_index'] = len(spec['ops'])
         result['violations'].extend(vs)
         result['log_digest'] = digest((result['log_digest'], log))
         return result
+
+    def many_parents_stage(self, lang, mp, stats):
+        """one treebank file with thousands of two-leaf trees over the SAME pair of children and different parent
+        categories (every category of the shipped seen rules, the grammar's own results among them): whatever a
+        reader remembers per pair of children must not leak from one parent to another"""
+        import random as _random
+        from depccg.cat import Category
+        from depccg.tree import Tree, ScoredTree
+        from depccg.types import Token
+        from depccg.printer import to_string
+        from depccg.lang import set_global_language_to, get_global_language
+        from depccg.tools import reader as R
+        from depccg.grammar import en, ja
+        from depsim import gen
+        variant = 'ja' if lang == 'ja' else mp['variant']
+        binary = {'en': en.apply_binary_rules, 'ja': ja.apply_binary_rules}[lang]
+        pairs, _, _ = gen.seen_index(variant)
+        rng = _random.Random(mp['seed'])
+        x, y = rng.choice(pairs)
+        cx, cy = Category.parse(x), Category.parse(y)
+        names = sorted({c for p in pairs for c in p})
+        rng.shuffle(names)
+        parents = [r.cat for r in binary(cx, cy)] + [Category.parse(c) for c in names[:mp['n']]]
+        rng.shuffle(parents)
+        doc = [[ScoredTree(Tree.make_binary(p, Tree.make_terminal(Token.of_word('l'), cx),
+                                            Tree.make_terminal(Token.of_word('r'), cy), 'x', '<x>', True), -1.0)]
+               for p in parents]
+        fmt = mp['format'] if mp['format'] in READABLE.get(lang, []) else READABLE[lang][0]
+        readers = {'auto': R.read_auto, 'xml': R.read_xml, 'jigg_xml': R.read_jigg_xml, 'ptb': R.read_ptb}
+        suffix = {'auto': '.auto', 'xml': '.xml', 'jigg_xml': '.jigg.xml', 'ptb': '.ptb'}
+        saved = get_global_language()
+        scratch_root = os.path.join(env.VERIF, '.build', 'scratch')
+        os.makedirs(scratch_root, exist_ok=True)
+        d = tempfile.mkdtemp(dir=scratch_root)
+        out, log = [], []
+        try:
+            set_global_language_to(lang)
+            try:
+                text = to_string(doc, fmt)
+            except Exception as e:  # noqa
+                return out, [('many_parents', 'render', type(e).__name__)]
+            path = os.path.join(d, 'many' + suffix[fmt])
+            with open(path, 'w', encoding='utf-8') as f:
+                f.write(text)
+            try:
+                items = list(readers[fmt](path))
+            except Exception as e:  # noqa
+                return out, [('many_parents', 'read', type(e).__name__)]
+            bump(stats, 'many_parents_files')
+            stats['counters']['largest_same_children_file'] = max(stats['counters'].get('largest_same_children_file', 0), len(items))
+            log.append(('many_parents', fmt, len(items)))
+            memo = {}
+
+            def binary_memo(a, b):
+                k = (a, b)
+                if k not in memo:
+                    memo[k] = binary(a, b)
+                return memo[k]
+            for item in items:
+                v = self.check_read_tree(item.tree, binary_memo, fmt, lang, stats)
+                if v is not None:
+                    v['message'] = f'in a file of {len(items)} trees over one pair of children: ' + v['message']
+                    out.append(v)
+                    break
+        finally:
+            set_global_language_to(saved)
+            shutil.rmtree(d, ignore_errors=True)
+        return out, log
 
     def generate(self, seed, index, tier, options):
         spec = super().generate(seed, index, tier, options)
@@ -117,6 +188,10 @@ class C12(ParserSessionProp):
             for _ in range(rng.randint(2, 3)):
                 inter.append({'format': rng.choice(READABLE.get(lang, ['auto'])), 'lang': rng.choice(['en', 'ja'])})
         spec['reader_interleave'] = {'readers': inter, 'seed': rng.getrandbits(30)}
+        mrng = gen.stream(seed, self.id + ':manyparents', index)
+        if mrng.random() < 0.02:
+            spec['many_parents'] = {'variant': mrng.choice(['en', 'en_rebank']), 'seed': mrng.getrandbits(30),
+                                    'n': 3000, 'format': mrng.choice(['auto', 'ptb', 'xml'])}
         # F11: for one file of every third run the reading is repeated under every stack budget between "fails at
         # once" and "succeeds", i.e. the interpreter's recursion limit is hit at every possible point of the reader
         srng = gen.stream(seed, self.id + ':stack', index)
